@@ -278,9 +278,10 @@ func anyArgBig(c progCase) bool {
 var knownShapes = []knownShape{
 	{"rand_range_overflow_fatal", "RAND(low, high): high - low + 1 overflows int64 (or an argument is NaN/Inf) -> rand.Int63n panics (lib/query/function.go Rand)",
 		func(c progCase) bool { return c.Kind == "func" && c.Name == "RAND" && len(c.Args) == 2 && anyArgBig(c) }},
-	{"json_value_empty_text_nil_fatal", "JSON_VALUE(query, '') : the decoder returns a nil structure for empty text and ConvertToValue calls Encode on it (lib/json/conversion.go:30)",
+	{"json_value_empty_text_nil_fatal", "JSON_VALUE('', ''): with an empty query and empty (or blank) JSON text the loader returns a nil structure without an error and ConvertToValue calls Encode on it (lib/json/conversion.go:30, via json.LoadValue)",
 		func(c progCase) bool {
-			return c.Kind == "func" && c.Name == "JSON_VALUE" && argIn(c, 1, "empty", "space", "col_v", "col_s", "col_g")
+			blank := []string{"empty", "space", "col_v", "col_s", "col_g"}
+			return c.Kind == "func" && c.Name == "JSON_VALUE" && argIn(c, 0, blank...) && argIn(c, 1, blank...)
 		}},
 	{"limit_percent_unclamped_fatal", "LIMIT x PERCENT: the limit computed from the percentage is neither validated nor clamped: x = NaN, or a huge OFFSET (RecordLen+offset overflows), gives int(Ceil(..)) = MinInt64 and RecordSet[:limit] panics (lib/query/view.go View.Limit)",
 		func(c progCase) bool {
@@ -580,13 +581,14 @@ var nameShapeSets = []nameSet{
 	{"long", []string{strings.Repeat("n", 300), strings.Repeat("あ", 100), "a", "b"}},
 }
 
-// Known genuine defect (reported): JSON output / JSON_OBJECT with a column `a`
-// followed by a column `a.b` ends in "Fatal Error: interface conversion:
-// json.Structure is json.Integer, not json.Object" (lib/json/conversion.go,
-// addPathValueToRowStructure). The generator keeps away from that exact shape
-// so that the search continues; set to false to reproduce it (signature
-// json_output_path_conflict_fatal).
-const avoidKnownJsonPathConflict = true
+// Genuine defect found by DESIGN.md and confirmed by this check, FIXED in /repo
+// (358b2b5): JSON output / JSON_OBJECT with a column `a` followed by a column
+// `a.b` (a scalar on the path of a later column) ended in "Fatal Error:
+// interface conversion: json.Structure is json.Integer, not json.Object"
+// (lib/json/conversion.go, addPathValueToRowStructure); signature
+// json_output_path_conflict_fatal. The shapes are generated (false); set to true
+// to keep the generator away from them on a tree without the fix.
+const avoidKnownJsonPathConflict = false
 
 var nameShapes []string
 
@@ -681,7 +683,7 @@ func checkProg(c progCase) (fw.Outcome, *fw.Violation) {
 
 func TestC19Programs(t *testing.T) {
 	fw.Run(t, fw.Spec[progCase]{
-		ID: "C19", Name: "programs", Quick: 40000, Thorough: 800000,
+		ID: "C19", Name: "programs", Quick: 60000, Thorough: 1200000,
 		Gen: genProg, Check: checkProg,
 		Rule: "syntactically valid programs: every name in query.Functions (+NOW, JSON_OBJECT; CALL excluded), query.AggregateFunctions (+LISTAGG, JSON_AGG) and query.AnalyticFunctions, enumerated at run time, called with 0-4 arguments drawn from ~55 boundary values (0, -1, int64 bounds, beyond int64, 1e308, denormal, NaN/Inf as floats and as text, NULL, '', wrong types, datetimes at year 0/10000, malformed JSON/regex/format strings, 100 000-character strings, column references) in plain / DISTINCT / GROUP BY / WITHIN GROUP / OVER (partition, order, ROWS frames) / IGNORE NULLS forms over a 0-8 row temporary table holding boundary cells; the same values in LIMIT, OFFSET, PERCENT, WITH TIES, FETCH, NTILE, NTH_VALUE, LAG/LEAD, frame offsets, cursor FETCH ABSOLUTE/RELATIVE, @@LIMIT_RECURSION with recursive CTEs, @@CPU, @@WAIT_TIMEOUT, REMOVE FROM @@DATETIME_FORMAT, ORDER/GROUP BY constants, JSON_ROW, JSON_TABLE, CASE, operators, PRINTF, TRIGGER ERROR, EXIT, control flow, user functions/aggregates, INSERT/UPDATE/DELETE/ALTER on the temporary table; and SET @@FORMAT to each of 12 output formats x 0-2 write settings (encodings, delimiters, delimiter positions, line breaks, JSON escapes, ...) x 16 column-name shapes (duplicates, periods, empty, control characters, ...) x boundary cells with the output captured. Oracle: as load_data (no FatalError, no escaped panic, returns, documented code, memory stays bounded). non-trivial = a built-in reached with >=1 boundary argument (not 'function does not exist'); distinct by (function, argument classes, outcome) / (clause, classes, outcome) / (format, settings, name shape, outcome)",
 		Assumptions: []string{
